@@ -267,6 +267,11 @@ func driveTiles(t *Tracer, r Rng, n int) {
 			k := 1 + r.Intn(3)
 			ts := []Tile{}
 			ok := true
+			edgeCase := r.Chance(0.2) // keys next to / straddling an end of the altitude range
+			if edgeCase {
+				O = r.edgeOffset()
+				ovz = r.In(0, 25)
+			}
 			for len(ts) < k {
 				var x Tile
 				if len(ts) > 0 && r.Chance(0.4) {
@@ -282,6 +287,11 @@ func driveTiles(t *Tracer, r Rng, n int) {
 					x.Z = r.edgeIn(0, nk-1)
 					if r.Chance(0.5) {
 						x.Z = r.In(0, minI(nk-1, 60))
+					}
+					if edgeCase {
+						x.V = r.In(maxI(0, E-26), E)
+						c := int64(1) << uint(E-x.V)
+						x.Z = maxI(0, fdiv(O+r.Pick(-1, 1)*(int64(1)<<25), c)+r.Pick(-1, 0, 0, 0, 1))
 					}
 				}
 				if !kzRepresentable(x.Z, x.V, ovz, E, O) {
